@@ -11,7 +11,7 @@ From Coq Require Import ZArith QArith List Bool Reals.
 From Coq Require Import Floats.SpecFloat.
 From Flocq Require Import Core.Core.
 From ML Require Import base.RustSem model.Fmt model.FloatOps model.Number model.Parse model.Top spec.Decimal spec.Round spec.RoundFacts
-  gen.Consts gen.Tables gen.BTables gen.PowDump proofs.ParseFacts proofs.Glue proofs.NoUB.
+  gen.Consts gen.Tables gen.BTables gen.PowDump proofs.ParseFacts proofs.Glue proofs.NoUB proofs.FastPathFacts proofs.EndToEnd.
 Import ListNotations.
 
 Open Scope Z_scope.
@@ -54,6 +54,18 @@ Theorem C09_underflow_threshold_iff :
          sfmt_ok f = true -> forall v : Q, (0 <= v)%Q -> RN f v = 0 <-> (v <= underflow_thresholdQ f)%Q.
 Proof. exact underflow_threshold_iff. Qed.
 
+Theorem C09_fast_class_monotone :
+  forall (c : config) (f : format) (b : build) (BT : btables) (L : limits) (i1 f1 : list Z) 
+           (e1 : Z) (i2 f2 : list Z) (e2 r1 r2 : Z),
+         In c ALL_CONFIGS ->
+         f = F32 \/ f = F64 ->
+         fast_class f i1 f1 e1 ->
+         fast_class f i2 f2 e2 ->
+         (dec_value i1 f1 e1 <= dec_value i2 f2 e2)%Q ->
+         parse_float c TABLES BT L f b i1 f1 e1 = Ok r1 ->
+         parse_float c TABLES BT L f b i2 f2 e2 = Ok r2 -> r1 <= r2.
+Proof. exact fast_class_monotone. Qed.
+
 
 Print Assumptions C09_RN_monotone.
 Print Assumptions C09_bits_le_iff.
@@ -61,3 +73,4 @@ Print Assumptions C09_bits_lt_iff.
 Print Assumptions C09_RN_range.
 Print Assumptions C09_overflow_threshold_iff.
 Print Assumptions C09_underflow_threshold_iff.
+Print Assumptions C09_fast_class_monotone.
